@@ -143,7 +143,7 @@ PostChecks(m, post) ==
 (***************************************************************************)
 EmptyUni == [par |-> <<0>>, diff |-> <<1>>, time |-> <<0>>, btx |-> <<<<1>>>>, tin |-> <<<<>>>>,
              tout |-> <<<<[a |-> 0, v |-> 0]>>>>, vsz |-> <<1>>]
-DummyCfg == [net |-> "regtest", thr |-> 1, api |-> TRUE, syncing |-> TRUE, gate |-> TRUE, lazy |-> FALSE,
+DummyCfg == [net |-> "regtest", thr |-> 1, api |-> TRUE, syncing |-> TRUE, gate |-> TRUE, lazy |-> FALSE, burn |-> FALSE,
              fees |-> [ub |-> 0, ur |-> 0, um |-> 0, bal |-> 0, balm |-> 0, pct |-> 0, pctm |-> 0,
                        hb |-> 0, hr |-> 0, hm |-> 0, sb |-> 0, sp |-> 0]]
 
@@ -249,8 +249,8 @@ TraceHb ==
   /\ IF R.out = "trap"
      THEN IF TrapExpected(St, Budget(R.budget)) THEN ExpectTrap("hb.ingest")
           ELSE Land(St, <<>>)
-     ELSE \E r \in {ObservedIngest(St)} :
-          \E f \in {HbSecond(HbFirstWith(St, r), R.reply)} :
+     ELSE \E r \in {ObservedIngest(Burn(St))} :
+          \E f \in {HbSecond(HbFirstWith(Burn(St), r), R.reply)} :
             LET reqJ == IF R.req.k = "initial" THEN [k |-> "initial", anchor |-> R.req.anchor, processed |-> R.req.processed] ELSE R.req
                 netOK == <<"hb.request.net", IF R.req.k = "initial" THEN cfg.net ELSE "-", IF R.req.k = "initial" THEN R.req.net ELSE "-">>
             IN IF f.st = "called" /\ R.req.k # "none" /\ ~Conformant(f.req, R.reply)
@@ -263,8 +263,8 @@ TraceHbSend ==
   /\ IF R.out = "trap"
      THEN IF TrapExpected(St, Budget(R.budget)) THEN ExpectTrap("hb.ingest")
           ELSE Land(St, <<>>)
-     ELSE \E r \in {ObservedIngest(St)} :
-          \E f \in {HbFirstWith(St, r)} :
+     ELSE \E r \in {ObservedIngest(Burn(St))} :
+          \E f \in {HbFirstWith(Burn(St), r)} :
             LET reqJ == IF R.req.k = "initial" THEN [k |-> "initial", anchor |-> R.req.anchor, processed |-> R.req.processed] ELSE R.req
                 m2 == IF f.st = "await" THEN [f.m EXCEPT !.flight = @ \cup {R.id}] ELSE f.m
                 stJ == IF f.st = "await" THEN "await" ELSE "done"
